@@ -248,6 +248,20 @@ fn main() {
             check_case(l, mu.cfg, &map, &setts, &|| format!("cfg={:?}\nspec={}\n--- .osu ---\n{}", mu.cfg, spec.describe(), spec.text()));
         });
     }
+    // native mania with a fractional key count (CircleSize x.5)
+    {
+        let cfg = gen::ModeCfg { src: 3, dst: 3 };
+        let alpha = Alphabet::product(&[Kind::Circle, Kind::Hold(100)], &[0, 150], &[PosK::Same], &[0], &[0, 2]);
+        let n_max = 3u32;
+        let per = alpha.count_upto(n_max);
+        let keys = [4u8, 6];
+        let setts = [Setting::nm(), Setting { lazer: Some(false), ..Setting::bits(settings::DT) }];
+        ctx.universe("mania-half-keys/3to3/N<=3", per * keys.len() as u64, |idx, l| {
+            let spec = MapSpec { keys: keys[(idx / per) as usize], cs_tenths: 5, ..MapSpec::new(3, alpha.seq(idx % per, n_max)) };
+            let map = spec.decode();
+            check_case(l, cfg, &map, &setts, &|| format!("cfg={cfg:?}\nspec={}\n--- .osu ---\n{}", spec.describe(), spec.text()));
+        });
+    }
     let n_max: u32 = ctx.pick(3, 4);
     for cfg in MODE_CFGS.iter() {
         let kinds = if cfg.src == 3 {
